@@ -440,7 +440,7 @@ var rdCorpus = []string{
 	"https://[::1]/", "https://[::1]:8443/x", "http://[::1", "http://[::1]x", "https://.good.com/", "https://*.good.com/", "https://good.com./", "https://good.com:/x",
 	"https://good.com:08443/", "https://good.com:8443:8443/", "https://a:b:80/", "https://0x7f.1/", "https://good.com /", "https://good.com\t/", "https://good.com/\t",
 	"https://good.com/#\t", "http://good.com/%zz", "http://good.com/#%zz", "https://user:pw@good.com/", "https://us%er@good.com/", "https://us er@good.com/",
-	"/oauth2-docs/guide?page=2", "/oauth2_clients/42/edit", "/oauth2.html", "/oauth2proxy/status", "/oauth", "/docs/oauth2/intro", "/oauth2x/y?z=1", "/o", "/oauth2~",
+	"/reports/view?from=2024&to=2025", "/a?x='1'&y=\"2\"", "/s?q=a&amp;b=c", "/t?lt=<&gt=>", "/oauth2-docs/guide?page=2", "/oauth2_clients/42/edit", "/oauth2.html", "/oauth2proxy/status", "/oauth", "/docs/oauth2/intro", "/oauth2x/y?z=1", "/o", "/oauth2~",
 	"/#/../\\evil.com/login", "/a#/../../\\evil.com", "/#/..//evil.com", "/a?x#/../..//evil.com", "/a;/../\\evil.com", "/#/../\t/evil.com",
 	"/oauth2/callback", "/oauth2/sign_in", "/oauth2", "/oauth2x", "/\xc2\xa0/evil.com", "/\xe2\x80\xa8/evil.com", "/\xe9", "/a\xff/../b", "/x/../../y", "a/b/../c", "../x", "./x", "x//y/",
 }
